@@ -46,23 +46,22 @@ func asLeafValue(l *leaf, arg interface{}) (v reflect.Value, ok bool) {
 	return v, false
 }
 
-// destKeyRead reads rc through a destination carrying its key. fin: First | Take | Find.
-// Returns whether the read was made (and compared).
-func (e *env) destKeyRead(rc *rec, fin string, note string) bool {
+// destKey returns the record's key as values of the key fields, when a destination carrying it identifies
+// the record: at least one part is non-zero and the non-zero parts select exactly one row of the table.
+// pat: per part "z" (zero) or "v".
+func (e *env) destKey(rc *rec) (vals []reflect.Value, lits []string, pat string, ok bool) {
 	m := e.m
 	if rc.keyBad || len(rc.pkArgs) != len(m.pks) {
-		return false
+		return nil, nil, "", false
 	}
-	vals := make([]reflect.Value, len(m.pks))
+	vals = make([]reflect.Value, len(m.pks))
 	var conds []string
 	var args []interface{}
-	var lits []string
-	pat := ""
 	for i, l := range m.pks {
 		v, ok := asLeafValue(l, rc.pkArgs[i])
 		if !ok {
 			e.c.Inc("destination_key_reads_skipped_key_type")
-			return false
+			return nil, nil, "", false
 		}
 		vals[i] = v
 		lits = append(lits, l.name()+": "+canonGo(l, v))
@@ -76,10 +75,21 @@ func (e *env) destKeyRead(rc *rec, fin string, note string) bool {
 	}
 	if len(conds) == 0 {
 		e.c.Inc("destination_key_reads_skipped_all_parts_zero")
-		return false
+		return nil, nil, "", false
 	}
 	if n := vdb.Ints(e.h.SQL, "SELECT count(*) FROM `"+m.table+"` WHERE "+strings.Join(conds, " AND "), args...); len(n) != 1 || n[0] != 1 {
 		e.c.Inc("destination_key_reads_skipped_nonzero_parts_not_unique")
+		return nil, nil, "", false
+	}
+	return vals, lits, pat, true
+}
+
+// destKeyRead reads rc through a destination carrying its key. fin: First | Take | Find.
+// Returns whether the read was made (and compared).
+func (e *env) destKeyRead(rc *rec, fin string, note string) bool {
+	m := e.m
+	vals, lits, pat, ok := e.destKey(rc)
+	if !ok {
 		return false
 	}
 	out := reflect.New(m.typ)
